@@ -202,6 +202,9 @@ type Exec struct {
 	freshChoice bool
 	tokenTable  []tokenEntry
 	freezing    string
+	settling    bool
+	unwind      int
+	maxSteps    int
 }
 
 type pathEnd struct {
@@ -466,6 +469,16 @@ func (ex *Exec) assume(c *smt.Term) {
 			ex.res.UnknownBr++
 		}
 	}
+}
+
+// assumeNoCheck adds a constraint that is known to keep the path feasible (it only restricts a fresh variable
+// to a non-empty range), so no solver call is needed.
+func (ex *Exec) assumeNoCheck(c *smt.Term) {
+	if c.IsTrue() {
+		return
+	}
+	ex.S.Assert(c)
+	ex.pcTerms = append(ex.pcTerms, c)
 }
 
 // concretize forks over the feasible values of an integer term (at most max).
